@@ -25,7 +25,8 @@ pub struct Sc {
     pub pipe_cap: u32,
 }
 
-const NAMES: &[&str] = &["a.txt", "sub/b.bin", "sp ace", "q'uote", "deep/er/c", "d$x"];
+// incl. siblings that sort differently as strings and as paths ("sub.txt" vs "sub/…": '.' < '/')
+const NAMES: &[&str] = &["a.txt", "sub/b.bin", "sub.txt", "sp ace", "q'uote", "deep/er/c", "deep/er.x", "deep!", "d$x", "sub/a", "sub-1"];
 
 fn body(id: u32) -> Vec<u8> {
     let mut v = format!("[content {id}]").into_bytes();
@@ -135,7 +136,7 @@ impl Check for C13 {
         let mut clients = Vec::new();
         for _ in 0..k {
             let mut tree = BTreeMap::new();
-            for _ in 0..r.urange(1, 4) {
+            for _ in 0..r.urange(1, 5) {
                 tree.insert((*r.pick(NAMES)).to_string(), r.below(8) as u32);
             }
             clients.push((tree.into_iter().collect(), r.below(3) == 0));
